@@ -3,6 +3,13 @@ package main
 func properties() []*propDef {
 	return []*propDef{
 		{
+			ID: "C01", Title: "Compile, Evaluate and Patch are total: never panic or hang on any input",
+			Rules: []ruleFn{rulePAN1, rulePAN2, rulePAN4, rulePAN8, ruleTER1},
+			Explanation: "Inventory of every instruction of a recognised crash class, and of every loop, in the repository functions reachable (VTA call graph) from the public API; each becomes an obligation that must be discharged by a guard that holds on every path.",
+			NotDecided: []string{"nil dereferences in general", "panics inside third-party code other than the summarised entry points", "stack exhaustion on adversarially deep expressions", "behaviour behind reflect"},
+			Assumptions: []string{"years are in 0..9999", "collections contain only System values and FHIR messages"},
+		},
+		{
 			ID: "C03", Title: "Evaluation never mutates its inputs",
 			Rules: []ruleFn{ruleMUT1, ruleMUT2, ruleMUT3, ruleMUT4},
 			Explanation: "Effect analysis over every repository function reachable (VTA call graph) from the Evaluate entry points: MUT1 no protoreflect/proto mutator or generated-struct field store on a non-fresh message; MUT2 every append / element store / copy / in-place helper writes through a slice allocated in the same activation (EN-PROV freshness, through phis, local cells, closures and in-repo callees); MUT3 no store to a field of a compiled expression node; MUT4 evaluation Context fields are written only by the frozen writer table. Positive controls: the same scans from the patch API and from Compile must find the mutators / construction stores that exist there.",
